@@ -378,9 +378,15 @@ pub(crate) async fn _mpc(ctx: &Context<'_, impl Channel>) -> Result<Vec<bool>, E
         fn_independent_pre(ctx).await?;
 
     // fn-dependent preprocessing:
+    #[cfg(feature = "__verif")]
+    crate::verif::tap_shares("random_shares", ctx.p_own, &mut random_shares);
     let and_shares = init_and_shares(ctx, &mut random_shares)?;
     let auth_bits =
         gen_auth_bits(ctx, delta, and_shares, shared_two_by_two, multi_shared_rand).await?;
+    #[cfg(feature = "__verif")]
+    let mut auth_bits = auth_bits;
+    #[cfg(feature = "__verif")]
+    crate::verif::tap_shares("auth_bits", ctx.p_own, &mut auth_bits);
     let (table_shares, garbled_gates, shares, labels, input_labels) =
         garble(ctx, delta, auth_bits, &mut random_shares).await?;
 
@@ -487,6 +493,8 @@ async fn fn_independent_pre(
         debug!("Using preprocessing without trusted dealer, generating delta and random shares");
         random_shares = FileOrMemBuf::new(ctx.tmp_dir, secret_bits)?;
         delta = Delta(random());
+        #[cfg(feature = "__verif")]
+        crate::verif::tap("delta", p_own, &[delta.0]);
         shared_two_by_two = Some(shared_rng_pairwise(channel, p_own, p_max).await?);
         multi_shared_rand = Some(shared_rng(channel, p_own, p_max).await?);
         for chunk_size in chunk_size_iter(secret_bits, ctx.random_shares_batch_size()) {
@@ -695,6 +703,8 @@ async fn garble(
                     let k3 = GarblingKey::new(label_x_1, label_y_1, w, 3);
 
                     let label_gamma_0 = Label(random());
+                    #[cfg(feature = "__verif")]
+                    crate::verif::tap("gate_label", ctx.p_own, &[label_gamma_0.0]);
                     let row0_label = label_gamma_0 ^ row0.xor_keys() ^ (row0.bit() & delta);
                     let row1_label = label_gamma_0 ^ row1.xor_keys() ^ (row1.bit() & delta);
                     let row2_label = label_gamma_0 ^ row2.xor_keys() ^ (row2.bit() & delta);
@@ -723,6 +733,8 @@ async fn garble(
                 }
                 Op::Input(_) => {
                     let label = Label(random());
+                    #[cfg(feature = "__verif")]
+                    crate::verif::tap("input_label", ctx.p_own, &[label.0]);
                     labels[inst.out] = label;
                     input_labels.push(label);
                     shares[inst.out] = random_shares
